@@ -157,3 +157,21 @@ Fixpoint literal_text (s : string) : bool :=
   | EmptyString => true
   | String c s' => is_plain c && literal_text s'
   end.
+
+(* ---------- pattern texts assembled by the Go code (Gen/C10Patterns.v lists the pieces) ---------- *)
+Inductive piece :=
+| PLit (s : string)        (* string literal *)
+| PVar (x : string)        (* a variable spliced in verbatim *)
+| PQuote (x : string)      (* regexp.QuoteMeta(variable) *)
+| POther (what : string).  (* anything the translator does not recognise *)
+
+(* the pattern text for a one-variable expression; None when the expression is not of the
+   literal/verbatim-variable form the models cover *)
+Fixpoint render (ps : list piece) (arg : string) : option string :=
+  match ps with
+  | [] => Some ""
+  | PLit s :: t => option_map (fun r => s ++ r) (render t arg)
+  | PVar _ :: t => option_map (fun r => arg ++ r) (render t arg)
+  | PQuote _ :: _ => None
+  | POther _ :: _ => None
+  end.
